@@ -46,7 +46,7 @@ from jsonargparse.typing import Path_fr, path_type  # noqa: E402
 PID = "C19"
 # Which variant of spec/Paths.tla the tree under test is compared with: "code" = the pinned tree, "statguard" = after the
 # repair proposed in tools/design.d/C19.md (os.stat under the F flag guarded) has been applied to /repo.
-VARIANT = os.environ.get("VERIF_C19_VARIANT", "code")
+VARIANT = os.environ.get("VERIF_C19_VARIANT", "statguard")  # /repo carries the fix: commit a58026a (mode F no longer stats a missing path)
 SFX = "" if VARIANT == "code" else "_" + VARIANT
 NPROC = min(16, os.cpu_count() or 4)
 NOBODY = 65534
@@ -634,12 +634,8 @@ def main(argv):
 
 
 def _merge_own_findings(rep) -> None:
-    """known_findings.json is generated from tools/findings.d by the maintainer; until it has been regenerated the
-    fragment of this property is read directly (a committed file, never written at run time)."""
-    frag = common.VERIF / "tools" / "findings.d" / f"{PID}.json"
-    if frag.exists():
-        have = {f["key"] for f in rep._known}
-        rep._known += [f for f in json.loads(frag.read_text()) if f.get("property") == PID and f.get("status") == "known" and f["key"] not in have]
+    """known findings come from /verif/known_findings.json only (Report loads it)."""
+    return None
 
 
 if __name__ == "__main__":
